@@ -14,7 +14,7 @@
     rows as rows to predict on before the matrix is prepared, so the featurizer's fitting rows are the rows that are fit;
  R8 callers slice the prepared matrix with the same bounds as the frames it was built from (bootstrap model and strata; the
     conformal callers are decided in C04.R6 / C05.R3);
- R9 typestate: prepare_data is called exactly once per Featurizer object (it appends to the feature lists).
+ R10 typestate: prepare_data is called exactly once per Featurizer object (it appends to the feature lists).
 Observation (no rule): _get_categories_for_fe tests startswith(fe) while the expansion uses startswith(fe + '_'); they differ only
 if one fixed-effect name is a prefix of another.
 """
